@@ -157,6 +157,12 @@ func exitFacts(P *Prog, x *exitInfo) factSet {
 		fs = fs.clone()
 		P.addEdgeFacts(fs, &Term{Op: "binop", S: "==", Args: []*Term{x.errTerm, tNil()}}, true, x.ret)
 	}
+	if un := P.unrolledOKFacts(x); len(un) > 0 {
+		fs = fs.clone()
+		for _, f := range un {
+			fs.add(f)
+		}
+	}
 	return fs
 }
 
